@@ -183,6 +183,28 @@ pub fn c07(ctx: &Ctx) -> PropResult {
             cases.push(Case::new(Kind::Lex, format!("x <- \"a{c}{d}b\" y")).tag("string-body"));
         }
     }
+    // numeric literals denote the nearest double: long digit strings, with and without fraction, hard cases
+    for lit in ["9.999999999999999", "1.7976931348623157", "0.30000000000000004", "9007199254740993", "9007199254740992.5", "4503599627370497.5", "0.1", "123456789012345678", "1234567890123456.78", "12345678901234567.8", "1.8446744073709551615", "18446744073709551615", "18446744073709551616", "0.000000000000000000001", "179769313486231570000000000000000000000", "2.2250738585072014", "2.2250738585072011", "8.41", "5.0000000000000001", "0.50000000000000011102230246251565404236316680908203125", "1.00000000000000011102230246251565404236316680908203125", "1.00000000000000011102230246251565404236316680908203124"] {
+        cases.push(Case::new(Kind::Lex, format!("x <- {lit}")).tag("long-literal"));
+        cases.push(Case::new(Kind::Lex, format!("{lit}")).tag("long-literal"));
+    }
+    {
+        let mut r2 = mk_rng(ctx.seed, 77);
+        let n = if ctx.quick() { 3_000 } else { 100_000 };
+        for _ in 0..n {
+            // 14 - 21 significant digits with the point at a random place
+            let digits = 14 + r2.below(8);
+            let mut d: String = (0..digits).map(|i| char::from(b'0' + if i == 0 { 1 + r2.below(9) as u8 } else { r2.below(10) as u8 })).collect();
+            let point = r2.below(digits + 1);
+            if point < digits {
+                d.insert(point, '.');
+                if point == 0 {
+                    d.insert(0, '0');
+                }
+            }
+            cases.push(Case::new(Kind::Lex, format!("v <- {d}")).tag("long-literal"));
+        }
+    }
     let mut rng = mk_rng(ctx.seed, 7);
     let n_random = if ctx.quick() { 20_000 } else { 300_000 };
     for _ in 0..n_random {
@@ -339,6 +361,14 @@ pub fn c08(ctx: &Ctx) -> PropResult {
                 cases.push(Case::new(Kind::Parse, t.replace('@', &body)).tag("long-token-error"));
                 cases.push(Case::new(Kind::Parse, t.replace('@', &format!("\"{body}\""))).tag("long-token-error"));
             }
+        }
+    }
+    // string literals holding every pair of characters of the lexical alphabet (escapes valid and invalid, followed
+    // by multi-byte characters), terminated and unterminated; comment tails
+    for c in LEX_ALPHABET {
+        for d in LEX_ALPHABET {
+            cases.push(Case::new(Kind::Parse, format!("x <- \"a{c}{d}b\" y")).tag("string-body"));
+            cases.push(Case::new(Kind::Parse, format!("DISPLAY(\"{c}{d}")).tag("string-body"));
         }
     }
     // diagnostics that print syntax: every expression form as an (invalid) assignment target, operand, argument
